@@ -103,7 +103,14 @@ fn try_print(fd: Fd, msg: &str) -> core::fmt::Result {
         };
         match res.cmp(&0) {
             core::cmp::Ordering::Less => return Err(core::fmt::Error),
-            core::cmp::Ordering::Equal => return Ok(()),
+            // Nothing more is accepted, that's only fine if there's nothing more to write
+            core::cmp::Ordering::Equal => {
+                return if flushed >= len {
+                    Ok(())
+                } else {
+                    Err(core::fmt::Error)
+                }
+            }
             core::cmp::Ordering::Greater => {
                 // Greater than zero
                 flushed += res as usize;
